@@ -150,7 +150,7 @@ func Split(prog int64, nops int, split int, withBase int, listing int) {
 // AppendTooBig: an Append that does not fit the remaining capacity is refused and leaves the
 // original unmodified. headLen NOPs in an emitter of capacity cp, tailLen NOPs in the clone.
 func AppendTooBig(cp, headLen, tailLen int, listing int) {
-	bufB, bufC := vp.Bytes("bufB", cp), vp.Bytes("bufC", 16)
+	bufB, bufC := vp.Bytes("bufB", cp+4)[:cp], vp.Bytes("bufC", 16) // the original's target has spare capacity behind it
 	b := asm.NewEmitter(bufB, listing == 1)
 	if vp.Choose("setbase", 2) == 1 {
 		base := vp.U32("base")
